@@ -193,13 +193,15 @@ def run(ck, prog, tier):
     purity.check(ck, prog, ['ebb_calc.max_rate_t3'], 'C17-R-pure')
     fn = prog.func('ebb_calc.max_rate_t3')
     f_rate = prog.func('ebb_calc.rate_t3')
-    if fn.params != ['time', 'rate', 'accel', 'jerk']:
+    n_def = len(fn.node.args.defaults)
+    if fn.params[:4] != ['time', 'rate', 'accel', 'jerk'] or len(fn.params) - 4 > n_def or \
+            fn.node.args.vararg or fn.node.args.kwarg:
         raise AnalysisError('max_rate_t3 signature changed')
     ck.saw('functions', [fn.qualname + ' @ ' + fn.loc(), f_rate.qualname + ' @ ' + f_rate.loc()])
     motion.declare_ints()
     T = V('time')
     X = vertex()
-    outs = Interp(prog, TickHooks()).run(fn, [V(p) for p in fn.params])
+    outs = Interp(prog, TickHooks()).run(fn, [V(p) for p in fn.params[:4]])
     outs = [canon_outcome(o, X) for o in outs]
     ck.saw('paths', '%d return paths' % len(outs))
     from ..report import Trial
